@@ -4,11 +4,9 @@ use acpi_tables::{sdt::Sdt, Aml, AmlSink};
 use serde_json::{json, Value};
 
 fn observe(s: &Sdt, with_ser: bool) -> Value {
-    let mut o = json!({"slice": jbytes(s.as_slice()), "len": s.len() as u64});
+    let mut o = json!({"slice": jbytes(s.as_slice()), "len": s.len() as u64, "is_empty": s.is_empty()});
     if with_ser {
-        let mut v = Vec::new();
-        s.to_aml_bytes(&mut v);
-        o["ser"] = jbytes(&v);
+        o["ser"] = jbytes(&ser(s));      // the table as an Aml object, into alternating kinds of sink
     }
     o
 }
@@ -84,6 +82,12 @@ pub fn exec(run: u64, prog: &Value, out: &mut Out) {
                 2 => sdt.append(u16::from_le_bytes([v[0], v[1]])),
                 4 => sdt.append(u32::from_le_bytes([v[0], v[1], v[2], v[3]])),
                 8 => sdt.append(u64::from_le_bytes(v.clone().try_into().unwrap())),
+                // the typed entry point takes any plain-old-data value: byte arrays of other sizes
+                3 => sdt.append(<[u8; 3]>::try_from(&v[..]).unwrap()),
+                5 => sdt.append(<[u8; 5]>::try_from(&v[..]).unwrap()),
+                6 => sdt.append(<[u8; 6]>::try_from(&v[..]).unwrap()),
+                12 => sdt.append(<[u8; 12]>::try_from(&v[..]).unwrap()),
+                16 => sdt.append(u128::from_le_bytes(v.clone().try_into().unwrap())),
                 _ => panic!("append width"),
             },
             "append_slice" => sdt.append_slice(vs),
@@ -100,6 +104,11 @@ pub fn exec(run: u64, prog: &Value, out: &mut Out) {
                     (2, true) => sdt.write(off, u16::from_le_bytes([v[0], v[1]])),
                     (4, true) => sdt.write(off, u32::from_le_bytes([v[0], v[1], v[2], v[3]])),
                     (8, true) => sdt.write(off, u64::from_le_bytes(v.clone().try_into().unwrap())),
+                    (3, _) => sdt.write(off, <[u8; 3]>::try_from(&v[..]).unwrap()),
+                    (5, _) => sdt.write(off, <[u8; 5]>::try_from(&v[..]).unwrap()),
+                    (6, _) => sdt.write(off, <[u8; 6]>::try_from(&v[..]).unwrap()),
+                    (12, _) => sdt.write(off, <[u8; 12]>::try_from(&v[..]).unwrap()),
+                    (16, _) => sdt.write(off, u128::from_le_bytes(v.clone().try_into().unwrap())),
                     _ => panic!("write width"),
                 }
             }
